@@ -3,6 +3,7 @@
 -/
 import Honeycomb.Lemmas.KernelWF2
 import Honeycomb.Props.C14
+import Honeycomb.Props.C03
 
 set_option linter.unusedSimpArgs false
 set_option linter.unusedVariables false
@@ -567,6 +568,165 @@ theorem C14_insertVertices_beta_structure (m m' : Map Val) (e : Nat) (nds : List
         · exact he2F (c ▸ hx)
         · exact hdisj x hx x c rfl
     · rw [List.length_take, List.length_drop]; omega
+
+/-! ## the new darts lie in pairwise distinct vertices -/
+
+theorem B1Chain.index {m : Map Val} : ∀ (l : List Nat) (d j : Nat), B1Chain m d l → j < l.length →
+    m.β 1 ((d :: l).getD j 0) = (d :: l).getD (j + 1) 0 := by
+  intro l
+  induction l with
+  | nil => intro d j _ hj; simp at hj
+  | cons x rest ih =>
+      intro d j h hj
+      cases j with
+      | zero => simpa using h.1
+      | succ j' =>
+          have := ih x j' h.2 (by simpa using hj)
+          simpa using this
+
+theorem zip_index {Q : Nat × Nat → Prop} {A B : List Nat} (h : ∀ p ∈ A.zip B, Q p) (j : Nat)
+    (hA : j < A.length) (hB : j < B.length) : Q (A.getD j 0, B.getD j 0) := by
+  have hz : j < (A.zip B).length := by simp [List.length_zip]; omega
+  have := h _ (List.getElem_mem hz)
+  rw [List.getElem_zip] at this
+  rw [List.getD_eq_getElem?_getD, List.getD_eq_getElem?_getD, List.getElem?_eq_getElem hA,
+    List.getElem?_eq_getElem hB]
+  exact this
+
+theorem getLastD_index : ∀ (l : List Nat) (d : Nat), l.getLastD d = (d :: l).getD l.length 0 := by
+  intro l
+  induction l with
+  | nil => intro d; rfl
+  | cons x rest ih => intro d; rw [List.getLastD_cons, ih x]; simp
+
+theorem getD_mem_of_lt {l : List Nat} {j : Nat} (h : j < l.length) : l.getD j 0 ∈ l := by
+  rw [List.getD_eq_getElem?_getD, List.getElem?_eq_getElem h]; exact List.getElem_mem h
+
+/-- the vertex closure argument: a set of darts closed under the two vertex images contains the whole vertex -/
+theorem reach_vertex_closed {m : Map Val} (S : Nat → Prop) (h0 : S 0)
+    (hcl : ∀ y, S y → S (m.β 1 (m.β 2 y)) ∧ S (m.β 2 (m.β 0 y))) {a x : Nat} (ha : S a)
+    (hr : Reach (C03.g2 m .vertex) a x) : S x := by
+  induction hr with
+  | refl => exact ha
+  | tail _ hc ih =>
+      simp only [C03.g2, List.mem_cons, List.not_mem_nil, or_false] at hc
+      rcases hc with rfl | rfl
+      · exact (hcl _ ih).1
+      · exact (hcl _ ih).2
+
+/-- after a successful insertion the vertex of the `t`-th new dart `fh[t]` consists of that dart and (two-dart edge)
+    its mirror `sh[k-1-t]` only -/
+theorem new_vertex_darts (m m' : Map Val) (e : Nat) (fh sh : List Nat) (hwf : WF 3 m) (hwf' : WF 3 m') (hn : m'.n = m.n)
+    (he : e < m.n) (hfhlt : ∀ x ∈ fh, x < m.n ∧ x ≠ 0) (hfree : ∀ x ∈ fh, ∀ i, i < 3 → m.β i x = 0)
+    (h2 : m.β 2 e ≠ 0 → fh.length = sh.length ∧ m.β 2 e < m.n ∧ ∀ x ∈ sh, x < m.n ∧ x ≠ 0)
+    (hres : InsertResult m m' e fh sh) (t : Nat) (ht : t < fh.length) (x : Nat)
+    (hr : Reach (C03.g2 m' .vertex) (fh.getD t 0) x) :
+    x = fh.getD t 0 ∨ x = 0 ∨ (m.β 2 e ≠ 0 ∧ x = (m.β 2 e :: sh).getD (fh.length - t) 0) := by
+  have hnull := hwf'.null
+  have c1 := fun j hj => B1Chain.index fh e j hres.side1.1 hj
+  -- β0 along the first side
+  have i1 : ∀ j, j < fh.length → m'.β 0 ((e :: fh).getD (j + 1) 0) = (e :: fh).getD j 0 := by
+    intro j hj
+    have hlt : (e :: fh).getD j 0 < m'.n := by
+      rw [hn]
+      cases j with
+      | zero => simpa using he
+      | succ j' => exact (hfhlt _ (by simpa using getD_mem_of_lt (l := fh) (j := j') (by omega))).1
+    have hne : (e :: fh).getD (j + 1) 0 ≠ 0 := (hfhlt _ (by simpa using getD_mem_of_lt hj)).2
+    have := hwf'.inv01 _ hlt (by rw [c1 j hj]; exact hne)
+    rw [c1 j hj] at this; exact this
+  have ha : (e :: fh).getD (t + 1) 0 = fh.getD t 0 := by simp
+  by_cases he2 : m.β 2 e = 0
+  · -- one-dart edge: the vertex is the dart alone
+    have hb2 : ∀ y, m'.β 2 y = m.β 2 y := fun y => hres.frame2 y (fun hh => absurd he2 hh)
+    have hS1free : ∀ j, j ≤ fh.length → m.β 2 ((e :: fh).getD j 0) = 0 := by
+      intro j hj
+      cases j with
+      | zero => simpa using he2
+      | succ j' => exact hfree _ (by simpa using getD_mem_of_lt (l := fh) (j := j') (by omega)) 2 (by omega)
+    have := reach_vertex_closed (m := m') (fun y => y = fh.getD t 0 ∨ y = 0) (Or.inr rfl) ?_ (Or.inl rfl) hr
+    · rcases this with c | c
+      · exact Or.inl c
+      · exact Or.inr (Or.inl c)
+    · intro y hy
+      rcases hy with rfl | rfl
+      · constructor
+        · right; rw [hb2, ← ha, hS1free _ (by omega)]; exact hnull 1 (by omega)
+        · right; rw [← ha, i1 t ht, hb2, hS1free _ (by omega)]
+      · exact ⟨Or.inr (by rw [hnull 2 (by omega)]; exact hnull 1 (by omega)),
+          Or.inr (by rw [hnull 0 (by omega)]; exact hnull 2 (by omega))⟩
+  · obtain ⟨hlen, he2lt, hshlt⟩ := h2 he2
+    obtain ⟨hch2, _⟩ := hres.side2 he2
+    obtain ⟨hpz, hpl1, hpl2⟩ := hres.pairs he2
+    have c2 := fun j hj => B1Chain.index sh (m.β 2 e) j hch2 hj
+    have i2 : ∀ j, j < sh.length → m'.β 0 ((m.β 2 e :: sh).getD (j + 1) 0) = (m.β 2 e :: sh).getD j 0 := by
+      intro j hj
+      have hlt : (m.β 2 e :: sh).getD j 0 < m'.n := by
+        rw [hn]
+        cases j with
+        | zero => simpa using he2lt
+        | succ j' => exact (hshlt _ (by simpa using getD_mem_of_lt (l := sh) (j := j') (by omega))).1
+      have hne : (m.β 2 e :: sh).getD (j + 1) 0 ≠ 0 := (hshlt _ (by simpa using getD_mem_of_lt hj)).2
+      have := hwf'.inv01 _ hlt (by rw [c2 j hj]; exact hne)
+      rw [c2 j hj] at this; exact this
+    -- β2 in index form: S2[j] ↔ S1[k-j]
+    have p : ∀ j, j ≤ fh.length → m'.β 2 ((m.β 2 e :: sh).getD j 0) = (e :: fh).getD (fh.length - j) 0 ∧
+        m'.β 2 ((e :: fh).getD (fh.length - j) 0) = (m.β 2 e :: sh).getD j 0 := by
+      intro j hj
+      by_cases hjk : j = fh.length
+      · subst hjk
+        rw [Nat.sub_self, hlen, ← getLastD_index]
+        exact ⟨hpl1, hpl2⟩
+      · have hj' : j < fh.length := by omega
+        have := zip_index (Q := fun p => m'.β 2 p.1 = p.2 ∧ m'.β 2 p.2 = p.1) hpz j
+          (by simp; omega) (by simp; omega)
+        have hrev : fh.reverse.getD j 0 = (e :: fh).getD (fh.length - j) 0 := by
+          rw [List.getD_eq_getElem?_getD, List.getElem?_eq_getElem (by simp; omega), List.getElem_reverse]
+          have : fh.length - j = (fh.length - 1 - j) + 1 := by omega
+          rw [this]
+          simp [List.getD_eq_getElem?_getD, List.getElem?_eq_getElem (show fh.length - 1 - j < fh.length by omega)]
+        rw [hrev] at this
+        exact this
+    have hb : (fh.length - t) = (fh.length - t - 1) + 1 := by omega
+    have := reach_vertex_closed (m := m')
+      (fun y => y = fh.getD t 0 ∨ y = 0 ∨ y = (m.β 2 e :: sh).getD (fh.length - t) 0)
+      (Or.inr (Or.inl rfl)) ?_ (Or.inl rfl) hr
+    · rcases this with c | c | c
+      · exact Or.inl c
+      · exact Or.inr (Or.inl c)
+      · exact Or.inr (Or.inr ⟨he2, c⟩)
+    · intro y hy
+      rcases hy with rfl | rfl | rfl
+      · constructor
+        · -- β1(β2 a) = b
+          right; right
+          have hp := (p (fh.length - t - 1) (by omega)).2
+          have e1 : fh.length - (fh.length - t - 1) = t + 1 := by omega
+          rw [e1, ha] at hp
+          rw [hp, c2 _ (by omega), ← hb]
+        · -- β2(β0 a) = b
+          right; right
+          rw [← ha, i1 t ht]
+          have hp := (p (fh.length - t) (by omega)).2
+          have e1 : fh.length - (fh.length - t) = t := by omega
+          rw [e1] at hp
+          exact hp
+      · exact ⟨Or.inr (Or.inl (by rw [hnull 2 (by omega)]; exact hnull 1 (by omega))),
+          Or.inr (Or.inl (by rw [hnull 0 (by omega)]; exact hnull 2 (by omega)))⟩
+      · constructor
+        · -- β1(β2 b) = a
+          left
+          have hp := (p (fh.length - t) (by omega)).1
+          have e1 : fh.length - (fh.length - t) = t := by omega
+          rw [e1] at hp
+          rw [hp, c1 t ht, ha]
+        · -- β2(β0 b) = a
+          left
+          rw [hb, i2 _ (by omega)]
+          have hp := (p (fh.length - t - 1) (by omega)).1
+          have e1 : fh.length - (fh.length - t - 1) = t + 1 := by omega
+          rw [e1, ha] at hp
+          exact hp
 
 /-! ## non-vacuity -/
 
